@@ -322,7 +322,7 @@ def plan(tier):
         T.append((ix["interleaved-fasta-gt"], 2, 40, None, "D", 1))
         T.append((ix["history-index"], 2, 4, None, "D", 1))
         T.append((ix["history-ties"], 2, 4, None, "D", 1))
-        T.append((ix["adjacent-stats"], 2, 40, None, "D", 1))  # single-record chunks: every adapter's 'other' count is spread over the workers
+        T.append((ix["adjacent-stats"], 2, 40, None, "D", 1))  # smallest chunks (two records): every adapter's "other" count is spread over the workers
         T.append((ix["single"], 2, 3, 1, "D", 1))
         T.append((ix["paired"], 2, 2, 1, "D", 1))
         T.append((ix["single-redirects"], 3, 3, None, "D", 1))
